@@ -2,9 +2,11 @@
 # try_seed.sh <seed id> <check> [<check>...] : applies /verif/seeded/<id>/patch.diff to /repo, runs the quick checks, restores /repo.
 ID=$1; shift
 cd /verif
-git -C /repo diff --quiet || { echo "/repo has uncommitted changes"; exit 2; }
-git -C /repo apply /verif/seeded/$ID/patch.diff || { echo "patch does not apply"; exit 2; }
-trap 'git -C /repo checkout -- .' EXIT
+R=${SEED_REPO:-/repo}   # SEED_REPO=<scratch worktree of /repo> tries the seed there instead (VERIF_REPO is pointed at it)
+export VERIF_REPO=$R
+git -C $R diff --quiet || { echo "/repo has uncommitted changes"; exit 2; }
+git -C $R apply /verif/seeded/$ID/patch.diff || { echo "patch does not apply"; exit 2; }
+trap 'git -C $R checkout -- .' EXIT
 export VERIF_EVIDENCE_DIR=/var/tmp/ev_seed VERIF_REPLAYS_NEW=/var/tmp/replays_seed_$ID
 for c in "$@"; do
   python3-vt verif.py check $c --tier ${TIER:-quick} > /var/tmp/seed_${ID}_$c.log 2>&1; rc=$?
